@@ -92,19 +92,23 @@ structure InvL (s : State) (dead : List Inst) (x : Inst) : Prop where
   tused : ∀ h ∈ s.retained, ∀ t ∈ h.tables, t.uri ∈ s.used
   cused : ∀ u ∈ x.created, u ∈ s.used
   /-- a WAL file belongs to checkpoints of one id -/
-  winv : ∀ h ∈ s.retained, ∀ c ∈ x.ckpts, ∀ w, w ∈ h.wals → w ∈ c.wals → c.id = h.id
-  wused : ∀ c ∈ x.ckpts, ∀ w ∈ c.wals, w ∈ s.used
-  hwused : ∀ h ∈ s.retained, ∀ w ∈ h.wals, w ∈ s.used
+  winv : ∀ h ∈ s.retained, ∀ c ∈ x.ckpts, ∀ w ∈ h.wals, ∀ w' ∈ c.wals, w.same w' = true → c.id = h.id
   wlt : ∀ h ∈ s.retained, h.writer ≤ dead.length
   curused : ∀ t ∈ x.current, t.uri ∈ s.used
-  winvD : ∀ h ∈ s.retained, ∀ d ∈ dead, ∀ c ∈ d.ckpts, ∀ w, w ∈ h.wals → w ∈ c.wals → c.id = h.id
-  wusedD : ∀ d ∈ dead, ∀ c ∈ d.ckpts, ∀ w ∈ c.wals, w ∈ s.used
+  winvD : ∀ h ∈ s.retained, ∀ d ∈ dead, ∀ c ∈ d.ckpts, ∀ w ∈ h.wals, ∀ w' ∈ c.wals, w.same w' = true → c.id = h.id
+  /-- the instance's directory is its own, and every referenced WAL file of that directory lies below the number
+  of the WAL the next checkpoint writes: sealing a WAL never overwrites a referenced file -/
+  xdir : x.dir = dead.length
+  wdirC : ∀ c ∈ x.ckpts, ∀ w ∈ c.wals, w.dir ≤ dead.length ∧ (w.dir = dead.length → w.num < x.walNext)
+  wdirH : ∀ h ∈ s.retained, ∀ w ∈ h.wals, w.dir ≤ dead.length ∧ (w.dir = dead.length → w.num < x.walNext)
+  wdirD : ∀ d ∈ dead, ∀ c ∈ d.ckpts, ∀ w ∈ c.wals, w.dir < dead.length
 
 /-- steps of the running instance that keep handles, checkpoints, loaded objects and the floor: they may add table
 files with unused names to the level list, and change snapshots / the life flag -/
 theorem invL_tables {s : State} {dead : List Inst} {x x' : Inst} {F : List File} {U : List Path}
     (inv : InvL s dead x)
     (hck : x'.ckpts = x.ckpts) (hld : x'.loaded = x.loaded) (hsrc : x'.src = x.src)
+    (hdir : x'.dir = x.dir) (hwn : x'.walNext = x.walNext)
     (hrel : x'.life ≠ .released) (hlife : x'.life = .alive → x.life = .alive)
     (hF : ∀ f ∈ s.files, f ∈ F) (hU : ∀ u ∈ s.used, u ∈ U)
     (hcur : ∀ t ∈ x'.current, t ∈ x.current ∨ (.sst t.uri ∈ F ∧ t.uri ∈ U))
@@ -135,8 +139,6 @@ theorem invL_tables {s : State} {dead : List Inst} {x x' : Inst} {F : List File}
   tused := fun h hh t ht => hU _ (inv.tused h hh t ht)
   cused := fun u hu => (hcr u hu).2
   winv := by rw [hck]; exact inv.winv
-  wused := by rw [hck]; exact fun c hc w hw => hU _ (inv.wused c hc w hw)
-  hwused := fun h hh w hw => hU _ (inv.hwused h hh w hw)
   wlt := inv.wlt
   curused := by
     intro t ht
@@ -144,7 +146,10 @@ theorem invL_tables {s : State} {dead : List Inst} {x x' : Inst} {F : List File}
     · exact hU _ (inv.curused t h1)
     · exact h1.2
   winvD := inv.winvD
-  wusedD := fun d hd c hc w hw => hU _ (inv.wusedD d hd c hc w hw)
+  xdir := hdir.trans inv.xdir
+  wdirC := by rw [hck, hwn]; exact inv.wdirC
+  wdirH := by rw [hwn]; exact inv.wdirH
+  wdirD := inv.wdirD
 
 theorem setInst_last {s : State} {dead : List Inst} {x : Inst} (hs : s.insts = dead ++ [x]) (y : Inst) :
     (setInst s dead.length y).insts = dead ++ [y] := by
@@ -180,7 +185,7 @@ theorem step_invL_simple {s s' : State} {dead : List Inst} {x : Inst} {a : Act} 
         have hfresh : t.uri ∉ s.used := by simpa using hc.2
         refine ⟨{ xi with current := t :: xi.current, created := t.uri :: xi.created }, ?_⟩
         have := invL_tables (x' := { xi with current := t :: xi.current, created := t.uri :: xi.created })
-          (F := .sst t.uri :: s.files) (U := t.uri :: s.used) inv rfl rfl rfl inv.norel (fun h => h)
+          (F := .sst t.uri :: s.files) (U := t.uri :: s.used) inv rfl rfl rfl rfl rfl inv.norel (fun h => h)
           (fun f hf => List.mem_cons_of_mem _ hf) (fun u hu => List.mem_cons_of_mem _ hu)
           (by
             intro t' ht'
@@ -208,7 +213,7 @@ theorem step_invL_simple {s s' : State} {dead : List Inst} {x : Inst} {a : Act} 
                           created := uris add ++ xi.created }, ?_⟩
         have := invL_tables (x' := { xi with current := xi.current.filter (fun t => !rm.contains t.uri) ++ add,
                                               created := uris add ++ xi.created })
-          (F := (uris add).map File.sst ++ s.files) (U := uris add ++ s.used) inv rfl rfl rfl inv.norel (fun h => h)
+          (F := (uris add).map File.sst ++ s.files) (U := uris add ++ s.used) inv rfl rfl rfl rfl rfl inv.norel (fun h => h)
           (fun f hf => List.mem_append_right _ hf) (fun u hu => List.mem_append_right _ hu)
           (by
             intro t' ht'
@@ -234,7 +239,7 @@ theorem step_invL_simple {s s' : State} {dead : List Inst} {x : Inst} {a : Act} 
         injection hstep with hstep; subst hstep
         refine ⟨{ xi with snaps := xi.current :: xi.snaps }, ?_⟩
         have := invL_tables (x' := { xi with snaps := xi.current :: xi.snaps }) (F := s.files) (U := s.used)
-          inv rfl rfl rfl inv.norel (fun h => h) (fun f hf => hf) (fun u hu => hu) (fun t ht => Or.inl ht)
+          inv rfl rfl rfl rfl rfl inv.norel (fun h => h) (fun f hf => hf) (fun u hu => hu) (fun t ht => Or.inl ht)
           (fun u hu => ⟨Or.inl hu, inv.cused u hu⟩)
         simpa [setInst, inv.shape] using this
       · simp at hstep
@@ -249,7 +254,7 @@ theorem step_invL_simple {s s' : State} {dead : List Inst} {x : Inst} {a : Act} 
         injection hstep with hstep; subst hstep
         refine ⟨{ xi with snaps := xi.snaps.eraseIdx k }, ?_⟩
         have := invL_tables (x' := { xi with snaps := xi.snaps.eraseIdx k }) (F := s.files) (U := s.used)
-          inv rfl rfl rfl inv.norel (fun h => h) (fun f hf => hf) (fun u hu => hu) (fun t ht => Or.inl ht)
+          inv rfl rfl rfl rfl rfl inv.norel (fun h => h) (fun f hf => hf) (fun u hu => hu) (fun t ht => Or.inl ht)
           (fun u hu => ⟨Or.inl hu, inv.cused u hu⟩)
         simpa [setInst, inv.shape] using this
       · simp at hstep
@@ -264,7 +269,7 @@ theorem step_invL_simple {s s' : State} {dead : List Inst} {x : Inst} {a : Act} 
         injection hstep with hstep; subst hstep
         refine ⟨{ xi with life := .crashed }, ?_⟩
         have := invL_tables (x' := { xi with life := .crashed }) (F := s.files) (U := s.used)
-          inv rfl rfl rfl (by simp) (fun h => by simp at h) (fun f hf => hf) (fun u hu => hu) (fun t ht => Or.inl ht)
+          inv rfl rfl rfl rfl rfl (by simp) (fun h => by simp at h) (fun f hf => hf) (fun u hu => hu) (fun t ht => Or.inl ht)
           (fun u hu => ⟨Or.inl hu, inv.cused u hu⟩)
         simpa [setInst, inv.shape] using this
       · simp at hstep
@@ -304,15 +309,16 @@ theorem step_invL_jobDrop {s s' : State} {dead : List Inst} {x : Inst} {k : Nat}
       tused := fun h hh => inv.tused h (hsub h hh).1
       cused := inv.cused
       winv := fun h hh => inv.winv h (hsub h hh).1
-      wused := inv.wused
-      hwused := fun h hh => inv.hwused h (hsub h hh).1
       wlt := fun h hh => inv.wlt h (hsub h hh).1
       curused := inv.curused
       winvD := fun h hh => inv.winvD h (hsub h hh).1
-      wusedD := inv.wusedD }
+      xdir := inv.xdir
+      wdirC := inv.wdirC
+      wdirH := fun h hh => inv.wdirH h (hsub h hh).1
+      wdirD := inv.wdirD }
   · simp at hstep
 
-theorem step_invL_ckpt {s s' : State} {dead : List Inst} {x : Inst} {i id : Nat} {wal : Path} (inv : InvL s dead x)
+theorem step_invL_ckpt {s s' : State} {dead : List Inst} {x : Inst} {i id : Nat} {wal : Wal} (inv : InvL s dead x)
     (hstep : step s (.ckpt i id wal) = some s') : ∃ x', InvL s' dead x' := by
   simp only [step] at hstep
   split at hstep
@@ -320,13 +326,23 @@ theorem step_invL_ckpt {s s' : State} {dead : List Inst} {x : Inst} {i id : Nat}
   · rename_i xi hi
     split at hstep
     · rename_i hc
-      obtain ⟨hal, hfl, hid, hfresh⟩ := hc
+      obtain ⟨hal, hfl, hid, _, hwdir, hwnum⟩ := hc
       obtain ⟨rfl, rfl⟩ := act_on_last inv hi hal
       injection hstep with hstep; subst hstep
-      have hfresh' : wal ∉ s.used := by simpa using hfresh
+      have hwd : wal.dir = dead.length := hwdir.trans inv.xdir
+      -- the sealed WAL has a name no referenced WAL file has
+      have hnew : ∀ v : Wal, (v.dir ≤ dead.length ∧ (v.dir = dead.length → v.num < xi.walNext)) →
+          wal.same v = false := by
+        intro v hv
+        cases hsm : wal.same v with
+        | false => rfl
+        | true =>
+          obtain ⟨h1, h2⟩ := same_num hsm
+          have := hv.2 (by omega)
+          omega
       have hid' : ∀ c ∈ xi.ckpts, c.id ≠ id := by
         intro c hc; have := List.all_eq_true.mp hid c hc; simpa using this
-      refine ⟨{ xi with ckpts := xi.ckpts ++ [⟨id, xi.current, [wal], false⟩] }, ?_⟩
+      refine ⟨ckptInst xi id wal, ?_⟩
       have hmemck : ∀ c, c ∈ xi.ckpts ++ [(⟨id, xi.current, [wal], false⟩ : Ckpt)] →
           c ∈ xi.ckpts ∨ c = ⟨id, xi.current, [wal], false⟩ := by
         intro c hc
@@ -339,19 +355,26 @@ theorem step_invL_ckpt {s s' : State} {dead : List Inst} {x : Inst} {i id : Nat}
         norel := inv.norel
         safe := by
           intro f hf
-          rw [mem_neededL (x := { xi with ckpts := xi.ckpts ++ [⟨id, xi.current, [wal], false⟩] })
-            (by simp [setInst, inv.shape]) inv.deadNA] at hf
-          show f ∈ File.wal wal :: s.files
+          rw [mem_neededL (x := ckptInst xi id wal) (by simp [setInst, inv.shape]) inv.deadNA] at hf
+          show f ∈ File.wal wal :: clobber s.files wal
           rcases hf with ⟨hl, t, ht, rfl⟩ | ⟨h, hh, hr⟩
-          · exact List.mem_cons_of_mem _ (inv.safe _ ((mem_neededL inv.shape inv.deadNA _).mpr (Or.inl ⟨hl, t, ht, rfl⟩)))
+          · exact List.mem_cons_of_mem _ (mem_clobber.mpr
+              ⟨inv.safe _ ((mem_neededL inv.shape inv.deadNA _).mpr (Or.inl ⟨hl, t, ht, rfl⟩)), by intro v hv; cases hv⟩)
           · rcases List.mem_cons.mp hh with rfl | hh
             · rcases hr with ⟨t, ht, rfl⟩ | ⟨w, hw, rfl⟩
-              · exact List.mem_cons_of_mem _
-                  (inv.safe _ ((mem_neededL inv.shape inv.deadNA _).mpr (Or.inl ⟨hal, t, ht, rfl⟩)))
+              · exact List.mem_cons_of_mem _ (mem_clobber.mpr
+                  ⟨inv.safe _ ((mem_neededL inv.shape inv.deadNA _).mpr (Or.inl ⟨hal, t, ht, rfl⟩)),
+                    by intro v hv; cases hv⟩)
               · have : w = wal := by simpa using hw
                 subst this
                 exact List.mem_cons_self ..
-            · exact List.mem_cons_of_mem _ (inv.safe _ ((mem_neededL inv.shape inv.deadNA _).mpr (Or.inr ⟨h, hh, hr⟩)))
+            · refine List.mem_cons_of_mem _ (mem_clobber.mpr
+                ⟨inv.safe _ ((mem_neededL inv.shape inv.deadNA _).mpr (Or.inr ⟨h, hh, hr⟩)), ?_⟩)
+              rcases hr with ⟨t, ht, rfl⟩ | ⟨w, hw, rfl⟩
+              · intro v hv; cases hv
+              · intro v hv
+                injection hv with hv; subst hv
+                exact hnew w (inv.wdirH h hh w hw)
         above := by
           intro h hh
           rcases List.mem_cons.mp hh with rfl | hh
@@ -394,56 +417,62 @@ theorem step_invL_ckpt {s s' : State} {dead : List Inst} {x : Inst} {i id : Nat}
           · exact inv.mine hl u hu h hh hm
         tused := by
           intro h hh t ht
-          show t.uri ∈ wal :: s.used
           rcases List.mem_cons.mp hh with rfl | hh
-          · exact List.mem_cons_of_mem _ (inv.curused t ht)
-          · exact List.mem_cons_of_mem _ (inv.tused h hh t ht)
-        cused := fun u hu => List.mem_cons_of_mem _ (inv.cused u hu)
+          · exact inv.curused t ht
+          · exact inv.tused h hh t ht
+        cused := inv.cused
         winv := by
-          intro h hh c hc w hw hw'
+          intro h hh c hc w hw w' hw' hsm
           rcases List.mem_cons.mp hh with rfl | hh2
-          · rcases hmemck c hc with h1 | h1
-            · have : w = wal := by simpa using hw
-              subst this
-              exact absurd (inv.wused c h1 w hw') hfresh'
+          · have hww : w = wal := by simpa using hw
+            rcases hmemck c hc with h1 | h1
+            · rw [hww] at hsm
+              have := hnew w' (inv.wdirC c h1 w' hw')
+              rw [hsm] at this; cases this
             · subst h1; rfl
           · rcases hmemck c hc with h1 | h1
-            · exact inv.winv h hh2 c h1 w hw hw'
+            · exact inv.winv h hh2 c h1 w hw w' hw' hsm
             · subst h1
-              have : w = wal := by simpa using hw'
-              subst this
-              exact absurd (inv.hwused h hh2 w hw) hfresh'
-        wused := by
-          intro c hc w hw
-          show w ∈ wal :: s.used
-          rcases hmemck c hc with h1 | h1
-          · exact List.mem_cons_of_mem _ (inv.wused c h1 w hw)
-          · subst h1
-            have : w = wal := by simpa using hw
-            subst this
-            exact List.mem_cons_self ..
-        hwused := by
-          intro h hh w hw
-          show w ∈ wal :: s.used
-          rcases List.mem_cons.mp hh with rfl | hh
-          · have : w = wal := by simpa using hw
-            subst this
-            exact List.mem_cons_self ..
-          · exact List.mem_cons_of_mem _ (inv.hwused h hh w hw)
+              have hww : w' = wal := by simpa using hw'
+              rw [hww, same_comm] at hsm
+              have := hnew w (inv.wdirH h hh2 w hw)
+              rw [hsm] at this; cases this
         wlt := by
           intro h hh
           rcases List.mem_cons.mp hh with rfl | hh
           · exact Nat.le_refl _
           · exact inv.wlt h hh
-        curused := fun t ht => List.mem_cons_of_mem _ (inv.curused t ht)
+        curused := inv.curused
         winvD := by
-          intro h hh d hd c hc w hw hw'
+          intro h hh d hd c hc w hw w' hw' hsm
+          rcases List.mem_cons.mp hh with rfl | hh2
+          · have hww : w = wal := by simpa using hw
+            rw [hww] at hsm
+            have h1 := inv.wdirD d hd c hc w' hw'
+            have := hnew w' ⟨by omega, by omega⟩
+            rw [hsm] at this; cases this
+          · exact inv.winvD h hh2 d hd c hc w hw w' hw' hsm
+        xdir := inv.xdir
+        wdirC := by
+          intro c hc w hw
+          show w.dir ≤ dead.length ∧ (w.dir = dead.length → w.num < xi.walNext + 1)
+          rcases hmemck c hc with h1 | h1
+          · have := inv.wdirC c h1 w hw
+            exact ⟨this.1, fun h => by have := this.2 h; omega⟩
+          · subst h1
+            have hww : w = wal := by simpa using hw
+            subst hww
+            exact ⟨by omega, fun _ => by omega⟩
+        wdirH := by
+          intro h hh w hw
+          show w.dir ≤ dead.length ∧ (w.dir = dead.length → w.num < xi.walNext + 1)
           rcases List.mem_cons.mp hh with rfl | hh
-          · have : w = wal := by simpa using hw
-            subst this
-            exact absurd (inv.wusedD d hd c hc w hw') hfresh'
-          · exact inv.winvD h hh d hd c hc w hw hw'
-        wusedD := fun d hd c hc w hw => List.mem_cons_of_mem _ (inv.wusedD d hd c hc w hw) }
+          · have hww : w = wal := by simpa using hw
+            subst hww
+            exact ⟨by omega, fun _ => by omega⟩
+          · have := inv.wdirH h hh w hw
+            exact ⟨this.1, fun h => by have := this.2 h; omega⟩
+        wdirD := inv.wdirD }
     · simp at hstep
 
 
@@ -480,19 +509,23 @@ theorem step_invL_retain {s s' : State} {dead : List Inst} {x : Inst} {i : Nat} 
           rw [mem_rmWals]
           rcases hf with ⟨hl, t, ht, rfl⟩ | ⟨h, hh, hr⟩
           · exact ⟨inv.safe _ ((mem_neededL inv.shape inv.deadNA _).mpr (Or.inl ⟨hl, t, ht, rfl⟩)),
-              by intro w _ hne; cases hne⟩
+              by intro w _ v hne; cases hne⟩
           · refine ⟨inv.safe _ ((mem_neededL inv.shape inv.deadNA _).mpr (Or.inr ⟨h, hh, hr⟩)), ?_⟩
             rcases hr with ⟨t, ht, rfl⟩ | ⟨w, hw, rfl⟩
-            · intro w _ hne; cases hne
-            · intro w' hw' hne
+            · intro w _ v hne; cases hne
+            · intro w' hw' v hne
               injection hne with hne
               subst hne
               obtain ⟨c', hc', hwc'⟩ := mem_walsOf.mp hw'
               have hd := mem_droppedOf.mp hc'
-              have h1 := inv.winv h hh c' hd.1 w hw hwc'
-              have h2 := hok c' hc'
-              have h3 := inv.above h hh
-              omega
+              cases hsm : w'.same w with
+              | false => rfl
+              | true =>
+                rw [same_comm] at hsm
+                have h1 := inv.winv h hh c' hd.1 w hw w' hwc' hsm
+                have h2 := hok c' hc'
+                have h3 := inv.above h hh
+                omega
         above := inv.above
         ownCur := by
           intro h hh hw
@@ -517,12 +550,13 @@ theorem step_invL_retain {s s' : State} {dead : List Inst} {x : Inst} {i : Nat} 
         tused := inv.tused
         cused := inv.cused
         winv := fun h hh c hcm => inv.winv h hh c (mem_keptOf.mp hcm).1
-        wused := fun c hcm => inv.wused c (mem_keptOf.mp hcm).1
-        hwused := inv.hwused
         wlt := inv.wlt
         curused := inv.curused
         winvD := inv.winvD
-        wusedD := inv.wusedD }
+        xdir := inv.xdir
+        wdirC := fun c hcm => inv.wdirC c (mem_keptOf.mp hcm).1
+        wdirH := inv.wdirH
+        wdirD := inv.wdirD }
     · simp at hstep
 
 theorem step_invL_collect {s s' : State} {dead : List Inst} {x : Inst} {i : Nat} {u : Path} {answers : List Ans}
@@ -539,10 +573,11 @@ theorem step_invL_collect {s s' : State} {dead : List Inst} {x : Inst} {i : Nat}
       have hnr : xi.refs u = false := by simpa [Inst.unreachable, hal] using hun
       -- deleting `sst u` is harmless if no job-retained handle lists `u`
       have key : ∀ (x' : Inst) (F : List File), x'.ckpts = xi.ckpts → x'.current = xi.current → x'.life = xi.life →
-          x'.src = xi.src → (∀ t ∈ x'.loaded, t ∈ xi.loaded) → (∀ v ∈ x'.created, v ∈ xi.created) →
+          x'.src = xi.src → x'.dir = xi.dir → x'.walNext = xi.walNext →
+          (∀ t ∈ x'.loaded, t ∈ xi.loaded) → (∀ v ∈ x'.created, v ∈ xi.created) →
           (∀ f ∈ s.files, f ≠ .sst u → f ∈ F) → (∀ h ∈ s.retained, u ∉ uris h.tables) →
           InvL { s with insts := dead ++ [x'], files := F } dead x' := by
-        intro x' F hck hcur hlife hsrc hld hcr hF hnone
+        intro x' F hck hcur hlife hsrc hdir hwn hld hcr hF hnone
         exact {
           shape := rfl
           deadNA := inv.deadNA
@@ -572,12 +607,13 @@ theorem step_invL_collect {s s' : State} {dead : List Inst} {x : Inst} {i : Nat}
           tused := inv.tused
           cused := fun v hv => inv.cused v (hcr v hv)
           winv := by rw [hck]; exact inv.winv
-          wused := by rw [hck]; exact inv.wused
-          hwused := inv.hwused
           wlt := inv.wlt
           curused := by rw [hcur]; exact inv.curused
           winvD := inv.winvD
-          wusedD := inv.wusedD }
+          xdir := hdir.trans inv.xdir
+          wdirC := by rw [hck, hwn]; exact inv.wdirC
+          wdirH := by rw [hwn]; exact inv.wdirH
+          wdirD := inv.wdirD }
       have hfiles : ∀ (b : Prop) [Decidable b] (f : File), f ∈ s.files → f ≠ .sst u →
           f ∈ (if b then rmFile s.files (.sst u) else s.files) := by
         intro b _ f hf hne
@@ -590,7 +626,7 @@ theorem step_invL_collect {s s' : State} {dead : List Inst} {x : Inst} {i : Nat}
         injection hstep with hstep; subst hstep
         refine ⟨{ xi with created := xi.created.erase u }, ?_⟩
         have := key { xi with created := xi.created.erase u }
-          (if (Facts.c09CreatedDeletes == 1) = true then rmFile s.files (.sst u) else s.files) rfl rfl rfl rfl
+          (if (Facts.c09CreatedDeletes == 1) = true then rmFile s.files (.sst u) else s.files) rfl rfl rfl rfl rfl rfl
           (fun t ht => ht) (fun v hv => List.mem_of_mem_erase hv) (hfiles _)
           (by
             intro h hh hm
@@ -607,7 +643,7 @@ theorem step_invL_collect {s s' : State} {dead : List Inst} {x : Inst} {i : Nat}
           refine ⟨{ xi with loaded := xi.loaded.erase t }, ?_⟩
           have := key { xi with loaded := xi.loaded.erase t }
             (if decision xi.range t (xi.nbrs.zip answers) = .delete ∨ Facts.c09LoadedGuarded ≠ 1
-              then rmFile s.files (.sst u) else s.files) rfl rfl rfl rfl
+              then rmFile s.files (.sst u) else s.files) rfl rfl rfl rfl rfl rfl
             (fun t' ht' => List.mem_of_mem_erase ht') (fun v hv => hv) (hfiles _)
             (by
               intro h hh hm
@@ -645,12 +681,14 @@ theorem writerAlive_false {s : State} {dead : List Inst} {x : Inst} (hs : s.inst
     · simpa using hx
 
 theorem step_invL_openFresh {s s' : State} {dead : List Inst} {x : Inst} {r : KGRange} {g : Nat} {n : List KGRange}
-    (inv : InvL s dead x) (hna : noneAlive s = true) (hemp : s.retained = [])
-    (hstep : step s (.openFresh r g n) = some s') : ∃ dead' x', InvL s' dead' x' := by
+    {dir : Nat} (inv : InvL s dead x) (hna : noneAlive s = true) (hemp : s.retained = [])
+    (hdir : dir = s.insts.length)
+    (hstep : step s (.openFresh r g n dir) = some s') : ∃ dead' x', InvL s' dead' x' := by
   simp only [step] at hstep
   injection hstep with hstep; subst hstep
   have hx := noneAlive_last inv.shape hna
-  refine ⟨dead ++ [x], { gen := g, range := r, nbrs := n }, ?_⟩
+  have hdl : dir = (dead ++ [x]).length := by rw [hdir, inv.shape]
+  refine ⟨dead ++ [x], { gen := g, range := r, nbrs := n, dir := dir }, ?_⟩
   have hd' : ∀ d ∈ dead ++ [x], d.life ≠ .alive := by
     intro d hd
     rcases List.mem_append.mp hd with h1 | h1
@@ -663,7 +701,8 @@ theorem step_invL_openFresh {s s' : State} {dead : List Inst} {x : Inst} {r : KG
     norel := by simp
     safe := by
       intro f hf
-      rw [mem_neededL (dead := dead ++ [x]) (x := { gen := g, range := r, nbrs := n }) (by simp [inv.shape]) hd'] at hf
+      rw [mem_neededL (dead := dead ++ [x]) (x := { gen := g, range := r, nbrs := n, dir := dir })
+        (by simp [inv.shape]) hd'] at hf
       rcases hf with ⟨_, t, ht, _⟩ | ⟨h, hh, _⟩
       · simp at ht
       · rw [hemp] at hh; cases hh
@@ -676,28 +715,33 @@ theorem step_invL_openFresh {s s' : State} {dead : List Inst} {x : Inst} {r : KG
     tused := by intro h hh; rw [hemp] at hh; cases hh
     cused := by intro u hu; simp at hu
     winv := by intro h hh; rw [hemp] at hh; cases hh
-    wused := by intro c hc; simp at hc
-    hwused := by intro h hh; rw [hemp] at hh; cases hh
     wlt := by intro h hh; rw [hemp] at hh; cases hh
     curused := by intro t ht; simp at ht
     winvD := by intro h hh; rw [hemp] at hh; cases hh
-    wusedD := by
+    xdir := hdl
+    wdirC := by intro c hc; simp at hc
+    wdirH := by intro h hh; rw [hemp] at hh; cases hh
+    wdirD := by
       intro d hd c hc w hw
+      have hlen : (dead ++ [x]).length = dead.length + 1 := by simp
       rcases List.mem_append.mp hd with h1 | h1
-      · exact inv.wusedD d h1 c hc w hw
+      · have := inv.wdirD d h1 c hc w hw; omega
       · have : d = x := by simpa using h1
-        subst this; exact inv.wused c hc w hw }
+        subst this
+        have := (inv.wdirC c hc w hw).1; omega }
 
 /-- the instance a restore from the document entry `c` creates -/
-def restored (r : KGRange) (g : Nat) (n : List KGRange) (c : Ckpt) (id : Nat) : Inst :=
+def restored (r : KGRange) (g : Nat) (n : List KGRange) (c : Ckpt) (id dir : Nat) : Inst :=
   { gen := g, range := r, nbrs := n, current := c.tables, loaded := c.tables,
-    ckpts := [⟨id, c.tables, c.wals, true⟩], src := some id }
+    ckpts := [⟨id, c.tables, c.wals, true⟩], src := some id, dir := dir, walNext := nextWalId c.wals }
 
 theorem step_invL_openFrom {s s' : State} {dead : List Inst} {x : Inst} {r : KGRange} {g : Nat} {n : List KGRange}
-    {w id : Nat} (inv : InvL s dead x) (hna : noneAlive s = true)
+    {w id dir : Nat} (inv : InvL s dead x) (hna : noneAlive s = true) (hdir : dir = s.insts.length)
     (hret : ∃ h0 ∈ s.retained, h0.writer = w ∧ h0.id = id)
-    (hstep : step s (.openFrom r g n [w] id) = some s') : ∃ dead' x', InvL s' dead' x' := by
+    (hstep : step s (.openFrom r g n [w] id dir) = some s') : ∃ dead' x', InvL s' dead' x' := by
   have hx := noneAlive_last inv.shape hna
+  have hdl : dir = (dead ++ [x]).length := by rw [hdir, inv.shape]
+  have hlen : (dead ++ [x]).length = dead.length + 1 := by simp
   have hd' : ∀ d ∈ dead ++ [x], d.life ≠ .alive := by
     intro d hd
     rcases List.mem_append.mp hd with h1 | h1
@@ -736,14 +780,14 @@ theorem step_invL_openFrom {s s' : State} {dead : List Inst} {x : Inst} {r : KGR
       have := List.mem_filter.mp hh
       refine ⟨this.1, ?_⟩
       simpa [writerAlive_false inv.shape inv.deadNA hx] using this.2
-    refine ⟨dead ++ [x], restored r g n c id, ?_⟩
+    refine ⟨dead ++ [x], restored r g n c id dir, ?_⟩
     exact {
       shape := by simp [inv.shape, restored]
       deadNA := hd'
       norel := by simp [restored]
       safe := by
         intro f hf
-        rw [mem_neededL (dead := dead ++ [x]) (x := restored r g n c id) (by simp [inv.shape, restored]) hd'] at hf
+        rw [mem_neededL (dead := dead ++ [x]) (x := restored r g n c id dir) (by simp [inv.shape, restored]) hd'] at hf
         rcases hf with ⟨_, t, ht, rfl⟩ | ⟨h, hh, hr⟩
         · have ht' : t ∈ h0.tables := htab ▸ ht
           exact inv.safe _ ((mem_neededL inv.shape inv.deadNA _).mpr (Or.inr ⟨h0, hh0, Or.inl ⟨t, ht', rfl⟩⟩))
@@ -773,7 +817,7 @@ theorem step_invL_openFrom {s s' : State} {dead : List Inst} {x : Inst} {r : KGR
       tused := fun h hh => inv.tused h (hfil h hh).1
       cused := by intro u hu; simp [restored] at hu
       winv := by
-        intro h hh c' hc' w' hw' hwc
+        intro h hh c' hc' w1 hw1 w2 hw2 hsm
         have : c' = ⟨id, c.tables, c.wals, true⟩ := by simpa [restored] using hc'
         subst this
         -- the composite carries the WALs of the entry it was read from
@@ -787,35 +831,40 @@ theorem step_invL_openFrom {s s' : State} {dead : List Inst} {x : Inst} {r : KGR
           have hcid : c.id = id := by simpa using List.find?_some hde
           rw [inv.shape] at hwi
           rcases get_cases hwi with ⟨_, h1⟩ | ⟨_, rfl⟩
-          · have := inv.winvD h (hfil h hh).1 wi (List.mem_of_getElem? h1) c hcm w' hw' hwc
+          · have := inv.winvD h (hfil h hh).1 wi (List.mem_of_getElem? h1) c hcm w1 hw1 w2 hw2 hsm
             exact hcid.symm.trans this
-          · have := inv.winv h (hfil h hh).1 c hcm w' hw' hwc
+          · have := inv.winv h (hfil h hh).1 c hcm w1 hw1 w2 hw2 hsm
             exact hcid.symm.trans this
-      wused := by
-        intro c' hc' w' hw'
-        have : c' = ⟨id, c.tables, c.wals, true⟩ := by simpa [restored] using hc'
-        subst this
-        exact inv.hwused h0 hh0 w' (hwal ▸ hw')
-      hwused := fun h hh => inv.hwused h (hfil h hh).1
       wlt := by
         intro h hh
         have := inv.wlt h (hfil h hh).1
         simp; omega
       curused := fun t ht => inv.tused h0 hh0 t (htab ▸ ht)
       winvD := by
-        intro h hh d hd c' hc' w' hw' hwc
+        intro h hh d hd c' hc' w1 hw1 w2 hw2 hsm
         rcases List.mem_append.mp hd with h1 | h1
-        · exact inv.winvD h (hfil h hh).1 d h1 c' hc' w' hw' hwc
+        · exact inv.winvD h (hfil h hh).1 d h1 c' hc' w1 hw1 w2 hw2 hsm
         · have : d = x := by simpa using h1
           subst this
-          exact inv.winv h (hfil h hh).1 c' hc' w' hw' hwc
-      wusedD := by
+          exact inv.winv h (hfil h hh).1 c' hc' w1 hw1 w2 hw2 hsm
+      xdir := hdl
+      wdirC := by
+        intro c' hc' w' hw'
+        have : c' = ⟨id, c.tables, c.wals, true⟩ := by simpa [restored] using hc'
+        subst this
+        have h1 := (inv.wdirH h0 hh0 w' (hwal ▸ hw')).1
+        exact ⟨by omega, fun h => by omega⟩
+      wdirH := by
+        intro h hh w' hw'
+        have h1 := (inv.wdirH h (hfil h hh).1 w' hw').1
+        exact ⟨by omega, fun h => by omega⟩
+      wdirD := by
         intro d hd c' hc' w' hw'
         rcases List.mem_append.mp hd with h1 | h1
-        · exact inv.wusedD d h1 c' hc' w' hw'
+        · have := inv.wdirD d h1 c' hc' w' hw'; omega
         · have : d = x := by simpa using h1
-          subst this; exact inv.wused c' hc' w' hw' }
-
+          subst this
+          have := (inv.wdirC c' hc' w' hw').1; omega }
 
 theorem invL_init (range : KGRange) (nbrs : List KGRange) :
     InvL (init1 range nbrs) [] { range := range, nbrs := nbrs } where
@@ -832,28 +881,29 @@ theorem invL_init (range : KGRange) (nbrs : List KGRange) :
   tused := by intro h hh; simp [init1] at hh
   cused := by intro u hu; simp at hu
   winv := by intro h hh; simp [init1] at hh
-  wused := by intro c hc; simp at hc
-  hwused := by intro h hh; simp [init1] at hh
   wlt := by intro h hh; simp [init1] at hh
   curused := by intro t ht; simp at ht
   winvD := by intro h hh; simp [init1] at hh
-  wusedD := by intro d hd; cases hd
+  xdir := rfl
+  wdirC := by intro c hc; simp at hc
+  wdirH := by intro h hh; simp [init1] at hh
+  wdirD := by intro d hd; cases hd
 
 theorem step_invL {s s' : State} {dead : List Inst} {x : Inst} {a : Act} (inv : InvL s dead x)
     (hsc : inScopeL s a = true) (hstep : step s a = some s') : ∃ dead' x', InvL s' dead' x' := by
   cases a with
-  | openFresh r g n =>
-    simp only [inScopeL, Bool.and_eq_true, List.isEmpty_iff] at hsc
-    exact step_invL_openFresh inv hsc.1 hsc.2 hstep
-  | openFrom r g n ws id =>
-    simp only [inScopeL, Bool.and_eq_true] at hsc
+  | openFresh r g n dir =>
+    simp only [inScopeL, Bool.and_eq_true, List.isEmpty_iff, beq_iff_eq] at hsc
+    exact step_invL_openFresh inv hsc.1.1 hsc.1.2 hsc.2 hstep
+  | openFrom r g n ws id dir =>
+    simp only [inScopeL, Bool.and_eq_true, beq_iff_eq] at hsc
     match ws, hsc, hstep with
     | [w], hsc, hstep =>
       have hret : ∃ h0 ∈ s.retained, h0.writer = w ∧ h0.id = id := by
         obtain ⟨h0, hh0, hp⟩ := List.any_eq_true.mp hsc.2
         simp only [Bool.and_eq_true, beq_iff_eq] at hp
         exact ⟨h0, hh0, hp.1, hp.2⟩
-      exact step_invL_openFrom inv hsc.1 hret hstep
+      exact step_invL_openFrom inv hsc.1.1 hsc.1.2 hret hstep
     | [], hsc, _ => simp at hsc
     | _ :: _ :: _, hsc, _ => simp at hsc
   | release i => simp [inScopeL] at hsc
